@@ -107,7 +107,10 @@ def check(case):
         hv_in = {k: v for k, v in names.items() if topo.heavy(k)}
         from ..build import intra_residue_clash
 
-        clash_free = intra_residue_clash(hv_in, bonds, limit=2.5) is None
+        # certified clash-free: the supplied heavy atoms AND the rebuilt ones (their position is dictated
+        # by the template, so a clash among them is a property of the input conformation)
+        hv_out = {k: v for k, v in out.items() if topo.heavy(k)}
+        clash_free = intra_residue_clash(hv_in, bonds, limit=2.5) is None and intra_residue_clash(hv_out, bonds, limit=2.5) is None
         swap = {"OD1": "OD2", "OD2": "OD1", "OE1": "OE2", "OE2": "OE1"}
         hswap = {"HD2": "HD1", "HD1": "HD2", "HE2": "HE1", "HE1": "HE2"} if topo.BASE.get(rn, rn) in ("ASP", "GLU") else {}
         bonds_full = {}
